@@ -60,4 +60,14 @@ PROPS = {
         trusted_base=["encoding/json: validity, RawMessage boundaries, map decoding (last duplicate wins), struct decoding of the Error object (validated by correspondence)"],
         assumptions=COMMON_ASSUME + ["the server has nothing in flight when the record arrives (C07 covers id reservations across requests)", "handler-supplied Error.Data is valid JSON"],
     ),
+    "C13": dict(
+        lean_modules=["Jrpc.Props.C13", "Jrpc.Tie.C13", "Jrpc.Tie.C02"],
+        namespaces=["Jrpc.Props.C13", "Jrpc.Tie.C13"],
+        harness_test="TestC13",
+        min_theorems=14,
+        level_text="Machine-checked Lean theorems over the byte-level model of the hand-written encoder (jmessage.toJSON / jmessages.toJSON) and of json.Marshal's string escaping: every emitted message starts with \"jsonrpc\":\"2.0\" and contains NO control byte for ANY method name (quote_clean, emit_single_line, emit_batch_single_line) given compact pre-encoded parts; batch shape; ParseRequests is total, errs iff the input is not valid JSON (via the scanner automaton), yields one entry per member in order, and flags with the server's codes. The encoder model is compared byte-for-byte with bytes captured from client requests/batches, server results/errors, pushes and callbacks; each message is also checked by an independent strict validator and re-parsed with ParseRequests. emit_parse_roundtrip is established by that correspondence only (partial).",
+        level_note="Trusted: Lean kernel, go2lean, harness; json.Marshal of params/result values yields compact valid JSON (contract); the parse-back of emitted messages (id/method/params equal) is checked on the implementation, not proved.",
+        trusted_base=["json.Marshal: compact, valid output for values; string escaping as modelled (validated byte-for-byte)"],
+        assumptions=COMMON_ASSUME + ["method names are valid UTF-8 and non-empty"],
+    ),
 }
